@@ -260,5 +260,3 @@ func cmdResp() {
 	}
 	vh.Emit(map[string]interface{}{"summary": true, "cases": len(all)})
 }
-
-func cmdFlood() {}
